@@ -1232,6 +1232,7 @@ func init() {
 			// positions at the very first byte of a file that is not the last file of the set (the main
 			// script with source modules, an earlier module): the file lookup boundary
 			posFilesOracle(c)
+			posDerivedErrorOracle(c)
 			for _, p := range posFileStartProgs() {
 				posOracle(c, p)
 				c.Count("shape:file-start")
